@@ -314,9 +314,13 @@ func transportScenario(name string, pollers int, senders [][]int, discard bool, 
 		received := 0
 		var late, empties []string
 		want := total
-		if discard {
-			want++ // the NOOP
-		}
+		// With discard the scenario plays serverSocket.upgradeTo: senders hold the transport read lock
+		// around Send (and use the new transport once it is swapped in), the upgrader takes the write
+		// lock, swaps, calls Discard and collects QueuedPackets for the new transport. A poller stops
+		// polling once it has seen the discard (the NOOP, or an empty answer): a correct client does
+		// not poll a discarded transport again, and every later poll would be answered at once.
+		var tmu vsched.RWMutex
+		swapped := false
 		for c := 0; c < pollers; c++ {
 			who := fmt.Sprintf("poller%d", c)
 			vsched.GoQuiet(who, func() {
@@ -331,14 +335,20 @@ func transportScenario(name string, pollers int, senders [][]int, discard bool, 
 					tr.ServeHTTP(rec, req)
 					queued := tr.VerifQueueLenUnlocked() // no scheduling point since the handler returned
 					body := rec.Body.String()
+					sawDiscard := false
 					obs.Do(func() {
 						if body == "" {
 							if queued > 0 {
 								empties = append(empties, fmt.Sprintf("%s answered empty at t=%v while %d packets were queued", who, e.Clock(), queued))
 							}
+							sawDiscard = discard
 							return
 						}
 						for _, part := range strings.Split(body, "\x1e") {
+							if discard && part == "6" {
+								sawDiscard = true
+								continue
+							}
 							got[part]++
 							received++
 							if e.Clock() > 0 {
@@ -346,6 +356,9 @@ func transportScenario(name string, pollers int, senders [][]int, discard bool, 
 							}
 						}
 					})
+					if sawDiscard {
+						return
+					}
 				}
 			})
 		}
@@ -357,12 +370,39 @@ func transportScenario(name string, pollers int, senders [][]int, discard bool, 
 					for k := 0; k < n; k++ {
 						ps = append(ps, msg(fmt.Sprintf("p%d.%d.%d", p, i, k)))
 					}
-					tr.Send(ps...)
+					tmu.RLock()
+					if swapped {
+						// the new transport takes it
+						obs.Do(func() {
+							for _, pk := range ps {
+								got["4"+string(pk.Data)]++
+								received++
+							}
+						})
+					} else {
+						tr.Send(ps...)
+					}
+					tmu.RUnlock()
 				}
 			})
 		}
 		if discard {
-			vsched.GoQuiet("discarder", func() { tr.Discard() })
+			vsched.GoQuiet("upgrader", func() {
+				tmu.Lock()
+				swapped = true
+				tr.Discard()
+				qp := tr.QueuedPackets()
+				obs.Do(func() {
+					for _, pk := range qp {
+						if pk.Type == eioparser.PacketTypeNoop {
+							continue
+						}
+						got["4"+string(pk.Data)]++ // re-sent on the new transport
+						received++
+					}
+				})
+				tmu.Unlock()
+			})
 		}
 		return func() vx.Result {
 			var r vx.Result
